@@ -5,6 +5,7 @@
   indices and by the monitors; the redelegation path D7 was repaired by a `fix:` commit.)
 -/
 import AllianceProofs
+import AllianceProps.C03
 namespace Alliance
 namespace C13
 open Dec
@@ -61,6 +62,42 @@ example : Unique [{ denom := 3, alliance := some 0, index := 5 }, { denom := 4, 
   intro h hh
   simp only [List.mem_cons, List.mem_nil_iff, or_false] at hh
   rcases hh with rfl | rfl <;> rfl
+
+/-- not retroactive, new positions: the record `Delegate`/`Redelegate` create for a delegator without a position starts at
+    the validator's CURRENT reward indices (and the current height), so it is entitled to nothing that accrued before it
+    existed — an immediate claim pays no coin -/
+theorem new_position_is_not_retroactive (del : Acct) (val : AVal) (d : Denom) (amt : Int) (a : Asset) (w w' : World) (s : Dec)
+    (h : upsertDelegationWithNewTokens del val d amt a w = (.ok s, w'))
+    (hnone : getDelegation w del val.id d = none) (t : Int)
+    (ht : delegationTokensWithShares s val.info a = .ok t)
+    (hu : Unique (histFilterByAlliance val.info.hist a.denom))
+    (hsnap : snapshotsFrom w' a.denom val.id w.height = []) :
+    ∃ dl, getDelegation w' del val.id d = some dl ∧ dl.shares = s ∧
+      calculateDelegationRewards w' dl val.info a = .ok ([], histFilterByAlliance val.info.hist a.denom) := by
+  rcases C03.deposit_credits_position del val d amt a w w' s h with ⟨_, hnew⟩ | ⟨dl, hdl, _⟩
+  · refine ⟨_, hnew, rfl, ?_⟩
+    exact second_claim_pays_nothing w' _ val.info a t ht rfl hu hsnap
+  · rw [hnone] at hdl; cases hdl
+
+/-- not retroactive, top-ups: a deposit into an existing position changes its shares only — the reward indices it was
+    settled at (by the claim `Delegate` performs first) stay -/
+theorem top_up_keeps_settlement (del : Acct) (val : AVal) (d : Denom) (amt : Int) (a : Asset) (w w' : World) (s : Dec)
+    (h : upsertDelegationWithNewTokens del val d amt a w = (.ok s, w')) (dl : Delegation)
+    (hdl : getDelegation w del val.id d = some dl) :
+    ∃ dl', AL.get w'.dels (dl.del, dl.val, dl.denom) = some dl' ∧ dl'.hist = dl.hist ∧
+      dl'.lastClaimHeight = dl.lastClaimHeight ∧ dl'.shares = dl.shares + s := by
+  rcases C03.deposit_credits_position del val d amt a w w' s h with ⟨hn, _⟩ | ⟨dl2, hdl2, hget⟩
+  · rw [hdl] at hn; cases hn
+  · rw [hdl] at hdl2
+    injection hdl2 with e
+    subst e
+    exact ⟨_, hget, rfl, rfl, rfl⟩
+
+
+/-- stake-neutral: a successful claim changes no share quantity — no position's shares, no validator's share totals, no
+    asset record (AllianceProofs/StakeNeutral) -/
+theorem claim_is_stake_neutral' (del : Acct) (v : ValId) (d : Option Denom) (w w' : World) (hk : KD w)
+    (h : step (.claim del v d) w = (.ok (), w')) : SV w w' := claim_is_stake_neutral del v d w w' hk h
 
 end C13
 end Alliance
